@@ -460,7 +460,7 @@ def table_cases(ctx, cfg):
     """every complete input of the dump with at most 4 leaves; of the 5-leaf inputs (thorough tier) a seeded
     sample of 1 in 10 is replayed on the real code (all of them are checked by TLC at model level)"""
     dump = os.path.join(ctx.work, "fitch_t.dump")
-    ctx.model("MC_Fitch", cfg, extra=("-dump", dump), heap="3g")
+    ctx.model("MC_Fitch", cfg, extra=("-dump", dump), heap="3g", timeout=3000 if ctx.quick else 6 * 3600)
     rng = random.Random(ctx.seed + 16)
     cases = []
     ninputs = nbig = 0
@@ -567,8 +567,8 @@ def run(ctx):
     ctx.model("MC_Fitch", "AsShipped_Fitch.cfg", expect_violation="PureScore", count=False, heap="2g")
     cases_p, nedges = path_cases(ctx, "MC_Fitch_sm_quick.cfg", 8 if q else 1)
     if not q:
-        ctx.model("MC_Fitch", "MC_Fitch_sm_thorough.cfg", heap="3g")
-        ctx.model("MC_Fitch", "MC_Fitch_sm_thorough4.cfg", heap="3g")
+        ctx.model("MC_Fitch", "MC_Fitch_sm_thorough.cfg", heap="3g", timeout=6 * 3600)
+        ctx.model("MC_Fitch", "MC_Fitch_sm_thorough4.cfg", heap="3g", timeout=6 * 3600)
     # 3. seeded random histories and instances on larger trees
     nrand, ntab = (48, 48) if q else (2500, 2500)
     rnd = []
@@ -579,7 +579,7 @@ def run(ctx):
         rnd.append({"kind": "random_table", "seed": ctx.seed * 1000003 + 500000 + i, "nleaves": 5 + (i % 5),
                     "basal_trifurcation": i % 6 == 5})
     driven = ctx.drive(cases_t + cases_p + rnd, run_case, chunksize=64)
-    ctx.judge("Trace_Fitch", driven, batch=6000 if q else 20000, heap="1g" if q else "2g")
+    ctx.judge("Trace_Fitch", driven, batch=6000 if q else 20000, heap="1g" if q else "2g", timeout=3000 if q else 6 * 3600)
     settle_drift(ctx)
     count_nontrivial(ctx, driven)
     ctx.extra["root_invariance_comparisons"] = count_root_comparisons(driven)
